@@ -17,9 +17,10 @@ def Op.WF : Op → Prop
   | .wmeta _ _ _ _ _ _ body _ d => d = body.isNone
   | _ => True
 
-structure StepInvariant (I : State → Prop) : Prop where
+structure StepInvariant (W : Op → Prop) (I : State → Prop) : Prop where
   txn : Family (fun k f => ∀ s c, I s → I (withNewCas s c (liftRow k f)).1)
-  wmeta : ∀ s c k old new exp xs body j d, d = body.isNone → I s → I (opWriteWithMeta s c k old new exp xs body j d).1
+  wmeta : ∀ s c k old new exp xs body j d, W (.wmeta c k old new exp xs body j d) → I s → I (opWriteWithMeta s c k old new exp xs body j d).1
+  draw : ∀ s, I s → I { s with hlc := hlcNow s.hlc s.phys }
   purge : ∀ s, I s → I (opPurge s).1
   arm : ∀ s e, I s → I { s with expNext := schedAtOrBefore s.expNext e }
   fire : ∀ s, I s → I (opFireExpiry s)
@@ -78,7 +79,7 @@ theorem shapeUpdateXattrs_all {Q : String → RowFn → Prop} (hQ : Family Q)
   · exact wwxShape_all hQ ..
 
 section
-variable {I : State → Prop} (hI : StepInvariant I)
+variable {W : Op → Prop} {I : State → Prop} (hI : StepInvariant W I)
 include hI
 
 theorem runShape_inv (s : State) (sh : OpShape)
@@ -147,7 +148,7 @@ theorem opTouch_inv (s : State) (c k : String) (exp : Nat) (hs : I s) : I (opTou
   · exact h
 
 /-- One step preserves the invariant. -/
-theorem step_inv (s : State) (op : Op) (hwf : op.WF) (hs : I s) : I (step s op).1 := by
+theorem step_inv (s : State) (op : Op) (hwf : W op) (hs : I s) : I (step s op).1 := by
   cases op with
   | clock t => exact hI.clock s t hs
   | now n => exact hI.now s n hs
@@ -188,9 +189,10 @@ theorem step_inv (s : State) (op : Op) (hwf : op.WF) (hs : I s) : I (step s op).
   | lastCas c => exact hs
   | keys c => exact hs
   | expState => exact hs
+  | draw => exact hI.draw s hs
 
 /-- Every state reachable from a state satisfying the invariant satisfies it: induction over any operation list. -/
-theorem run_inv (ops : List Op) : ∀ (s : State), (∀ op ∈ ops, op.WF) → I s → I (run s ops).1 := by
+theorem run_inv (ops : List Op) : ∀ (s : State), (∀ op ∈ ops, W op) → I s → I (run s ops).1 := by
   induction ops with
   | nil => intro s _ hs; exact hs
   | cons op tl ih =>
@@ -272,7 +274,7 @@ theorem opWriteWithMeta_stateAll {P : Row → Prop} (hP : RowInvariant P) (s : S
       · exact h2
 
 /-- A row invariant is a step invariant. -/
-theorem RowInvariant.step {P : Row → Prop} (hP : RowInvariant P) : StepInvariant (StateAll P) where
+theorem RowInvariant.step {P : Row → Prop} (hP : RowInvariant P) : StepInvariant Op.WF (StateAll P) where
   txn :=
     { add := fun k exp v j s c hs => opWithNewCas_row s c k _ (hP.fam.add k exp v j) hs
       set := fun k exp pe v j s c hs => opWithNewCas_row s c k _ (hP.fam.set k exp pe v j) hs
@@ -285,6 +287,7 @@ theorem RowInvariant.step {P : Row → Prop} (hP : RowInvariant P) : StepInvaria
       dsp := fun k n s c hs => opWithNewCas_row s c k _ (hP.fam.dsp k n) hs }
   wmeta := fun s c k old new exp xs body j d hwf hs => opWriteWithMeta_stateAll hP s c k old new exp xs body j d hwf hs
   purge := opPurge_stateAll
+  draw := fun s hs => StateAll.of_colls_eq rfl hs
   arm := fun s e hs => StateAll.of_colls_eq rfl hs
   fire := fun s hs => fire_of_txn (fun k s c hs => opWithNewCas_row s c k _ (hP.fam.remove k none) hs)
     (fun s e hs => StateAll.of_colls_eq rfl hs) s hs
